@@ -71,7 +71,7 @@ theorem reader_reports_verbatim (H : Bytes → Bytes) (hH : ∀ x, (H x).length 
     (hcfg : configFromParams p = .ok cfg) (hcompr : compressionFromDict features c = .ok compr)
     (hord : ∀ i ∈ d.rebuildOrder, i < d.chunkDescriptors.length)
     (hsz : ∀ cd ∈ d.chunkDescriptors, 1 ≤ cd.archiveSize)
-    (hoff : ∀ cd ∈ d.chunkDescriptors, (buildHeader H d none).length + cd.archiveOffset ≤ usizeMax)
+    (hoff : ∀ cd ∈ d.chunkDescriptors, (buildHeader H d none).length + cd.archiveOffset + cd.archiveSize ≤ usizeMax)
     (hlen : (encodeDictionary d).length + 86 ≤ usizeMax) :
     ∃ a, tryInit H features (honestReadAt (buildHeader H d none ++ data)) = .ok a ∧
       a.config = cfg ∧ a.hashLength = p.chunkHashLength ∧ a.compression = compr ∧
